@@ -337,7 +337,9 @@ pub fn gen_boundary(r: &mut Rng) -> IoCase {
         i += 1;
     }
     let container = r.pick(&["plain", "plain", "gzc"]).to_string();
-    IoCase { fastq, eol: b"\n".to_vec(), wrap: *r.pick(&[60usize, 100000]), fin: true, recs, container, suffix: if fastq { ".fq" } else { ".fa" }.to_string() }
+    // CRLF in half of them: a CR LF pair may then straddle a buffer boundary as well
+    let eol = if r.chance(1, 2) { b"\r\n".to_vec() } else { b"\n".to_vec() };
+    IoCase { fastq, eol, wrap: *r.pick(&[60usize, 100000]), fin: true, recs, container, suffix: if fastq { ".fq" } else { ".fa" }.to_string() }
 }
 
 fn expected(c: &IoCase) -> String {
